@@ -3,9 +3,9 @@
 # run the property's quick check against the worktree; the verdict is appended to seeded/<name>/check.log
 P=$1; N=$2; WT=$3
 mkdir -p /verif/seeded/$N && cp -r $WT/_seed/* /verif/seeded/$N/ 2>/dev/null
-cd /verif
+V=${VERIF_SNAP:-/verif}; cd $V
 OUT=$(VERIF_REPO=$WT bin/check $P 2>&1 | grep -E "^(VIOLATION|KNOWN-FINDING|INCONCLUSIVE|RESULT|  what)" | head -12)
 { echo "== $(date -u +%FT%TZ) VERIF_REPO=$WT bin/check $P (verif $(git rev-parse --short HEAD))"; echo "$OUT"; } >> /verif/seeded/$N/check.log
-rm -rf /verif/replays/$P
+rm -rf $V/replays/$P
 git checkout -- evidence/$P.json 2>/dev/null
 echo "$N: $(echo "$OUT" | grep RESULT)"
